@@ -21,7 +21,7 @@ def register(E, v, rng_guard):
                 out.append(v(label, lambda d, kw=kw, shape=shape, rank=rank: call(d, shape, rank, **kw), tier, cxv))
             for (shape, rank) in extra:
                 out.append(v(f"{label}|shape={'x'.join(map(str, shape))},rank={rank}",
-                             lambda d, kw=kw, shape=shape, rank=rank: call(d, shape, rank, **kw), "t", cxv))
+                             lambda d, kw=kw, shape=shape, rank=rank: call(d, shape, rank, **kw), "x" if tier == "x" else "t", cxv))
         return out
 
     def mask_for(d, shape):
@@ -137,7 +137,7 @@ def register(E, v, rng_guard):
         ("sparsity_coefficients", dict(init="svd", _sp=True, _pos=True, **h_it), "q"),
         ("fixed_modes", dict(init="svd", fixed_modes=[0], _pos=True, **h_it), "q"),
         ("nn_modes=[0]", dict(init="svd", nn_modes=[0], **h_it), "q"),
-        ("exact", dict(init="svd", exact=True, _pos=True, n_iter_max=1, tol=1e-300), "t"),
+        ("exact", dict(init="svd", exact=True, _pos=True, n_iter_max=1, tol=1e-300), "x"),
         ("normalize_factors", dict(init="svd", normalize_factors=True, _pos=True, **h_it), "q"),
         ("return_errors", dict(init="svd", return_errors=True, _pos=True, **h_it), "q"),
     ], lambda d, s, r, **kw: call_parafac(d, s, r, _fn=D.non_negative_parafac_hals, **kw), extra=[((4, 3), 2)]), ta=True)
@@ -268,7 +268,7 @@ def register(E, v, rng_guard):
         ("fixed_modes", dict(init="svd", fixed_modes=[0], _pos=True, **th_it), "q"),
         ("normalize_factors", dict(init="svd", normalize_factors=True, _pos=True, **th_it), "q"),
         ("return_errors", dict(init="svd", return_errors=True, _pos=True, **th_it), "q"),
-        ("exact", dict(init="svd", exact=True, _pos=True, n_iter_max=1, tol=1e-300), "t"),
+        ("exact", dict(init="svd", exact=True, _pos=True, n_iter_max=1, tol=1e-300), "x"),
     ], lambda d, s, r, **kw: call_tucker(d, s, r, _fn=D.non_negative_tucker_hals, **kw), extra=[((4, 3), 2)]), ta=True)
     E("Tucker_NN_HALS", "decomposition", 8.0, grid([("algorithm=fista", dict(init="svd", **th_it), "q")],
                                                    lambda d, s, r, **kw: {"tk": _tucker.Tucker_NN_HALS(tk_rank(s, r), random_state=d.off, **kw).fit_transform(d.pos(s))},
